@@ -23,7 +23,11 @@ class C08(C06):
     def history(self, rng):
         g = resgen.GR(rng, depth=rng.choice([1, 2, 3]))
         nres = rng.choice([1, 1, 2])
-        ress = ",".join("%s:%s" % ("a" if (i == 0 or rng.random() < 0.6) else "o", hx(g.resource())) for i in range(nres))
+        # plural selects of both rule kinds, so that a history alternates the cached formatters
+        plural = ("p0 = { $n ->\n [one] one\n [two] two\n [few] few\n *[other] other\n }\n"
+                  "p1 = { NUMBER($n, type: \"ordinal\") ->\n [one] st\n [two] nd\n [few] rd\n *[other] th\n }\n")
+        ress = ",".join("%s:%s" % ("a" if (i == 0 or rng.random() < 0.6) else "o", hx((plural if i == 0 else "") + g.resource()))
+                        for i in range(nres))
         cfg = g.config()
         fns = g.fns()
         base = []
@@ -42,6 +46,10 @@ class C08(C06):
                     aa = "&".join(parts)
                 reqs.append("%s:%s:%s" % (hx(m), at, aa))
         rng.shuffle(reqs)
+        # cardinal / ordinal alternating at random points of the history
+        nn = rng.choice(["i1", "i2", "i3", "i22", "i4"])
+        for k in range(rng.randint(2, 6)):
+            reqs.insert(rng.randrange(len(reqs) + 1), "%s:~:%s=%s" % (hx("p%d" % (k % 2)), hx("n"), nn))
         warm = "fmt %s %s %s %s" % (cfg, ress, fns, ",".join(reqs))
         # every distinct request once on a fresh bundle (a new bundle per request: several bundle cases)
         fresh = []
